@@ -68,6 +68,7 @@ func (t *VT) AttachTo(cons console.Device) {
 	t.curFg, t.curBg = t.defaultFg, t.defaultBg
 	t.termWidth, t.termHeight = t.viewportWidth, t.viewportHeight+t.scrollback
 	t.cursorX, t.cursorY = 1, 1
+	t.dataOffset = 0
 
 	// Allocate space for the contents and fill it with empty characters
 	// using the default fg/bg colors for the attached console.
